@@ -979,10 +979,14 @@ End Lower.
 End Sketch.
 
 (* ================================================================== per-configuration reflection *)
-Lemma zrange_In x n : 0 <= x < n -> In x (zrange 0 n).
+Lemma zrange_aux_In n : forall lo x, lo <= x < lo + Z.of_nat n -> In x (zrange_aux n lo).
 Proof.
-  intros H. unfold zrange. apply in_map_iff. exists (Z.to_nat x). split; [lia|]. apply in_seq. lia.
+  induction n as [|n IH]; intros lo x H; [lia|]. cbn [zrange_aux].
+  destruct (Z.eq_dec x lo) as [->|Hne]; [left; reflexivity|right; apply IH; lia].
 Qed.
+
+Lemma zrange_In x n : 0 <= x < n -> In x (zrange 0 n).
+Proof. intros H. unfold zrange. apply zrange_aux_In. lia. Qed.
 
 Theorem merge_grid_sound nr umax max_count decode castc :
   merge_grid_b nr umax max_count decode castc = true ->
